@@ -51,6 +51,8 @@ class KeepAlivePdu(AbstractFileDirectiveBase):
         directive_param_field_len = 4
         if file_size == LargeFileFlag.LARGE:
             directive_param_field_len = 8
+        if self.pdu_file_directive.pdu_conf.crc_flag == CrcFlag.WITH_CRC:
+            directive_param_field_len += 2
         self.pdu_file_directive.pdu_header.file_flag = file_size
         self.pdu_file_directive.directive_param_field_len = directive_param_field_len
 
